@@ -70,3 +70,11 @@ pub use provider::MetadataProvider;
 
 /// Limit for recursion when loading TrueType composite glyphs.
 const GLYF_COMPOSITE_RECURSION_LIMIT: usize = 32;
+
+/// Verification hooks: crate-private kernels exposed to an external harness
+/// when built with `--cfg googlefonts_fontations_verif`. Not public API.
+#[cfg(googlefonts_fontations_verif)]
+pub mod verif {
+    pub use crate::decycler::verif_drive_decycler;
+    pub use crate::outline::verif::*;
+}
